@@ -7,7 +7,7 @@ from vf.selftest import mutation_selftest
 from contracts import versioning as K
 from props.C15 import text_to_us
 
-LEVEL = 'proof'
+LEVEL = 'other'
 UTC = dtm.timezone.utc
 
 
